@@ -29,6 +29,9 @@ pub enum Fault {
     ColonlessLineAt { pos: u16, lead: u8, text: String, crlf: bool },
     NoEmptyLine,
     Truncated(u16),
+    /// a CR inside a header field name (behind its first byte, before the colon): the line ends
+    /// without a colon as far as a CR means anything, and a field name is a token anyway
+    CrInHeaderName { hdr: u16, pos: u16 },
 }
 
 #[derive(Clone, Debug, Serialize, Deserialize, PartialEq)]
@@ -39,6 +42,10 @@ pub struct Case {
     pub tcp: bool,
     pub req: HttpReq,
     pub fault: Fault,
+    /// over TCP: deliver the request in two segments, cut at this position (monotone-mapped to
+    /// [signature length, length))
+    #[serde(default)]
+    pub cut: Option<u16>,
 }
 
 fn fault() -> impl Strategy<Value = Fault> {
@@ -56,13 +63,14 @@ fn fault() -> impl Strategy<Value = Fault> {
         2 => (any::<u16>(), prop::sample::select(vec![0u8, b' ', b'\t']), "[A-Za-z0-9][A-Za-z0-9 ,;=-]{0,12}", any::<bool>()).prop_map(|(pos, lead, text, crlf)| Fault::ColonlessLineAt { pos, lead, text, crlf }),
         2 => Just(Fault::NoEmptyLine),
         3 => any::<u16>().prop_map(Fault::Truncated),
+        2 => (any::<u16>(), any::<u16>()).prop_map(|(hdr, pos)| Fault::CrInHeaderName { hdr, pos }),
     ]
 }
 
 pub fn case_strategy() -> impl Strategy<Value = Case> {
-    (scenario(Fam::Any), port(), port(), any::<bool>(), http_req(), fault()).prop_map(|(mut scn, sport, dport, tcp, req, fault)| {
+    (scenario(Fam::Any), port(), port(), any::<bool>(), http_req(), fault(), prop::option::weighted(0.3, any::<u16>())).prop_map(|(mut scn, sport, dport, tcp, req, fault, cut)| {
         scn.cfg.logger = LoggerKind::None;
-        Case { scn, sport, dport, tcp, req, fault }
+        Case { scn, sport, dport, tcp, req, fault, cut }
     })
 }
 
@@ -129,6 +137,25 @@ pub fn faulty_bytes(req: &HttpReq, f: &Fault) -> Option<Vec<u8>> {
             v.extend_from_slice(&good[off..]);
             Some(v)
         }
+        Fault::CrInHeaderName { hdr, pos } => {
+            if req.headers.is_empty() {
+                return None;
+            }
+            let k = pick(*hdr, req.headers.len());
+            let mut off = req.request_line().len() + req.eol(0).len();
+            for (i, (n, v)) in req.headers.iter().enumerate().take(k) {
+                off += n.len() + 1 + v.len() + req.eol(1 + i).len();
+            }
+            let nl = req.headers[k].0.len();
+            if nl == 0 {
+                return None;
+            }
+            let at = off + 1 + pick(*pos, nl);
+            let mut v = good[..at].to_vec();
+            v.push(b'\r');
+            v.extend_from_slice(&good[at..]);
+            Some(v)
+        }
         Fault::NoEmptyLine => {
             let last_eol = req.eol(1 + req.headers.len()).len();
             Some(good[..end - last_eol].to_vec())
@@ -158,7 +185,29 @@ pub fn check(c: &Case, st: &mut Stats) -> Check {
         }
     }
     st.frames(if c.tcp { 2 } else { 1 });
-    let app = app_exchange(&sut, &c.scn.net, c.tcp, c.sport, c.dport, &bytes)?;
+    let sig_len = HTTP_VERBS[c.req.verb].len() + 2;
+    let two = match c.cut {
+        Some(k) if c.tcp && bytes.len() > sig_len + 1 => Some(sig_len + pick(k, bytes.len() - sig_len - 1) + 1),
+        _ => None,
+    };
+    let app = match two {
+        None => app_exchange(&sut, &c.scn.net, c.tcp, c.sport, c.dport, &bytes)?,
+        Some(k) => {
+            use crate::vf::session::*;
+            st.class("delivered-in-two-segments");
+            let flow = Flow { net: c.scn.net.clone(), sport: c.sport, dport: c.dport };
+            let rs = deliver(&sut, &flow, 31337, &bytes, &[k, bytes.len() - k]).map_err(Failure::new)?;
+            let mut got: Option<Vec<u8>> = None;
+            for r in &rs {
+                match r {
+                    SegReply::Data(p) if got.is_none() => got = Some(p.clone()),
+                    SegReply::Other(o) if o.starts_with("panic") => return Err(Failure::keyed("panic", o.clone())),
+                    _ => {}
+                }
+            }
+            got
+        }
+    };
     let tr = if c.tcp { "tcp" } else { "udp" };
     let fk = match &c.fault {
         Fault::None => "well-formed",
@@ -170,6 +219,7 @@ pub fn check(c: &Case, st: &mut Stats) -> Check {
         Fault::ColonlessLineAt { lead, .. } => if *lead == 0 { "fault:colon-less-line-among-headers" } else { "fault:colon-less-line-starting-with-blank" },
         Fault::NoEmptyLine => "fault:no-empty-line",
         Fault::Truncated(_) => "fault:truncated",
+        Fault::CrInHeaderName { .. } => "fault:cr-inside-header-name",
     };
     st.class(&format!("{}:{}", fk, tr));
     if positive {
@@ -305,7 +355,7 @@ impl Prop for C13 {
         "C13"
     }
     fn rule(&self) -> &'static str {
-        "cases = request grammar (9 methods; target '/' + bytes other than SP/CR/LF incl. non-UTF-8 and NUL, 0..60 bytes; HTTP/d+.d+; 0..5 'name:value' header lines with arbitrary value bytes; CRLF or bare LF chosen per line; optional trailing bytes) x transport (UDP datagram / one segment on a handshaken TCP flow) x both IP versions x random ports x log level Off..Trace (the 401 path logs verb and target at Warn), and single-fault corruptions: unknown method (not completing any signature), byte of 'HTTP/' replaced, non-digit version, missing version, header line without colon, terminating empty line removed, truncation at every position before the end. Keep-alive: 1..3 complete requests, one per segment of ONE connection, optionally followed by one more request that is well-formed or carries one of the faults: every complete request is answered as above, the faulty one is not (nothing is judged after a faulty request). Oracle: independent LF-tolerant response parser: status line HTTP/1.1 401, WWW-Authenticate present, Content-Length = number of body bytes; faulty requests get no application reply (UDP silence, TCP bare ACK). Non-trivial = every case (decides one request); distinct by hash of (bytes, transport)."
+        "cases = request grammar (9 methods; target '/' + bytes other than SP/CR/LF incl. non-UTF-8 and NUL, 0..60 bytes; HTTP/d+.d+; 0..5 'name:value' header lines with arbitrary value bytes; CRLF or bare LF chosen per line; optional trailing bytes) x transport (UDP datagram / one segment, or two segments cut anywhere behind the signature, on a handshaken TCP flow) x both IP versions x random ports x log level Off..Trace (the 401 path logs verb and target at Warn), and single-fault corruptions: unknown method (not completing any signature), byte of 'HTTP/' replaced, non-digit version, missing version, header line without colon, terminating empty line removed, truncation at every position before the end, a CR inside a header field name. Keep-alive: 1..3 complete requests, one per segment of ONE connection, optionally followed by one more request that is well-formed or carries one of the faults: every complete request is answered as above, the faulty one is not (nothing is judged after a faulty request). Oracle: independent LF-tolerant response parser: status line HTTP/1.1 401, WWW-Authenticate present, Content-Length = number of body bytes; faulty requests get no application reply (UDP silence, TCP bare ACK). Non-trivial = every case (decides one request); distinct by hash of (bytes, transport)."
     }
     fn run(&self, ctx: &mut RunCtx) {
         let n = ctx.share(ctx.tier.n(600_000, 8_000_000));
